@@ -24,6 +24,8 @@ CONSTANTS
   MaxClk,             \* bound on the clock
   OldPopOrder,        \* TRUE: PopContext as it was before the repair (charge the parent copy, then reinstate it)
   OldTimeCharge,      \* TRUE: requireCPU as it was before the repair (the CPU is recorded after the clock is looked at)
+  NCo,                \* number of coroutines (0: none).  Each coroutine has its own Go stack (its own CallContext frames) but
+                      \* the context stack belongs to the runtime: it is shared by all threads
   XFlags,     \* extra compliance flags a push may request (subset of {"iosafe","timesafe"})
   MaxDepth,   \* bound on Len(stack)
   MaxFrames,  \* bound on nested CallContext calls
@@ -41,11 +43,14 @@ VARIABLES
   last,    \* what the last completed call returned to its caller (observable)
   hist,    \* history of actions (hidden by the VIEW): the path that is replayed
   clk,     \* the wall clock in ms (the code reads it with now(); the harness drives it through the verif hook)
+  cor,     \* coroutines: [cos |-> [1..NCo -> [st |-> "none"|"susp"|"run"|"dead", fr |-> its frames while suspended]],
+           \*              chain |-> the coroutines running nested (last = the running one; <<>> = the main thread runs),
+           \*              saved |-> the frames of their resumers]
   pv       \* invariant verdicts found while a panic was in flight (a state the replay cannot stop in): reported with
            \* the next quiet state of the path (hidden by the VIEW)
 
-vars == <<stack, frames, pan, fail, last, hist, clk, pv>>
-View == <<stack, frames, pan, fail, clk>>      \* `last` and `hist` are outputs only
+vars == <<stack, frames, pan, fail, last, hist, clk, cor, pv>>
+View == <<stack, frames, pan, fail, clk, cor>>      \* `last` and `hist` are outputs only
 
 Emit(v) == IF Emitting THEN PrintT(<<"@@", ToJson(v)>>) ELSE TRUE
 
@@ -213,6 +218,15 @@ PopChargeViol(st, r) ==
      /\ r.st[n-1].uc # st[n-1].uc + st[n].uc /\ r.st[n-1].uc # M - 1
   THEN {[inv |-> "ChargedToParent", why |-> "lost-cpu-charge-" \o r.why, lvl |-> n - 1]} ELSE {}
 
+(* A CallContext that ends pops the context it pushed: the active context is the one at the index the frame remembers.
+   With a single Go stack this cannot fail; with coroutines the frames of several Go stacks interleave on the one
+   context stack of the runtime. *)
+OwnViol(fr, st) ==
+  IF fr # <<>> /\ fr[Len(fr)].base # Len(st)
+  THEN {[inv |-> "FrameOwnsContext", why |-> IF fr[Len(fr)].base > Len(st) THEN "pops-an-enclosing-context" ELSE "pops-a-context-pushed-by-another-thread",
+         lvl |-> Len(st)]}
+  ELSE {}
+
 (* Exactness / uninterceptability.  Given that every single request kills
    exactly when used + n reaches the hard limit (conformance of ReqC/ReqM) and
    that a pop charges the parent with exactly the child's use, a computation
@@ -236,6 +250,7 @@ Init == /\ stack = <<RootCtx>>
         /\ hist = <<>>
         /\ clk = 0
         /\ pv = {}
+        /\ cor = [cos |-> [i \in 1..NCo |-> [st |-> "none", fr |-> <<>>]], chain |-> <<>>, saved |-> <<>>]
 
 (* common tail of every action: record the event, emit the replayable line *)
 Step(ev, st, fr, p, fl, l, extraViol) ==
@@ -246,6 +261,7 @@ Step(ev, st, fr, p, fl, l, extraViol) ==
   /\ last' = l
   /\ hist' = IF Emitting THEN Append(hist, ev) ELSE hist
   /\ clk' = clk
+  /\ cor' = cor
   /\ pv' = IF p = "none" THEN {} ELSE pv \cup CtxViol(st) \cup extraViol
   /\ Emit([h |-> hist', exp |-> [stack |-> ProjStack(st), pan |-> p, last |-> l, nframes |-> Len(fr)],
            viol |-> CtxViol(st) \cup extraViol \cup pv])
@@ -355,7 +371,7 @@ CallEnd(err) ==
          (* a CallContext that ends leaves its context behind it, whatever happens to its caller *)
          popped == IF Len(r.st) # Len(stack) - 1
                    THEN {[inv |-> "PoppedAtEnd", why |-> "context-left-installed-after-" \o r.why, lvl |-> Len(stack)]} ELSE {}
-         tv == (IF r.pan THEN {} ELSE TimeViol(r.st, clk, "end")) \cup PopChargeViol(st1, r)
+         tv == (IF r.pan THEN {} ELSE TimeViol(r.st, clk, "end")) \cup PopChargeViol(st1, r) \cup OwnViol(frames, stack)
      IN Step([op |-> "end", err |-> err], r.st, fr, PanAfter(k, fr), PopFail(r),
              IF r.pan THEN [op |-> "end", pan |-> k]
              ELSE [op |-> "end", pan |-> k, ret |-> ProjCtx(r.ret), err |-> IF err THEN "lua" ELSE "none"], truth \cup popped \cup tv)
@@ -368,7 +384,7 @@ Unwind ==
          k == IF r.pan THEN "term" ELSE IF pan = "term" THEN "none" ELSE pan
          popped == IF Len(r.st) # Len(stack) - 1
                    THEN {[inv |-> "PoppedAtEnd", why |-> "context-left-installed-after-" \o r.why, lvl |-> Len(stack)]} ELSE {}
-         tv == (IF k = "none" THEN TimeViol(r.st, clk, "unwind") ELSE {}) \cup PopChargeViol(stack, r)
+         tv == (IF k = "none" THEN TimeViol(r.st, clk, "unwind") ELSE {}) \cup PopChargeViol(stack, r) \cup OwnViol(frames, stack)
          truth == IF ~r.pan /\ pan = "term" /\ r.ret.status # "killed"
                   THEN {[inv |-> "StatusTruth", why |-> "terminated-reports-" \o r.ret.status, lvl |-> Len(stack)]} ELSE {}
          exact == IF ~r.pan /\ pan = "term" THEN RecoverViol(r.st, fr, fail) ELSE {}
@@ -382,10 +398,47 @@ Tick(d) ==
   /\ clk' = clk + d
   /\ hist' = IF Emitting THEN Append(hist, [op |-> "tick", n |-> d]) ELSE hist
   /\ last' = [op |-> "tick", pan |-> "none"]
-  /\ UNCHANGED <<stack, frames, pan, fail, pv>>
+  /\ UNCHANGED <<stack, frames, pan, fail, pv, cor>>
   /\ Emit([h |-> hist', exp |-> [stack |-> ProjStack(stack), pan |-> pan, last |-> last', nframes |-> Len(frames)], viol |-> {}])
 
+(* ---- coroutines: each has its own frames; the context stack is shared (it belongs to the runtime) ---- *)
+CoStep(ev, fr, c2) ==
+  /\ frames' = fr /\ cor' = c2
+  /\ hist' = IF Emitting THEN Append(hist, ev) ELSE hist
+  /\ last' = [op |-> ev.op, pan |-> "none"]
+  /\ UNCHANGED <<stack, pan, fail, clk, pv>>
+  /\ Emit([h |-> hist', exp |-> [stack |-> ProjStack(stack), pan |-> "none", last |-> last', nframes |-> Len(fr)], viol |-> {}])
+
+ButLastS(q) == SubSeq(q, 1, Len(q) - 1)
+
+(* coroutine.create + first resume: the body runs at once, on a fresh Go stack *)
+CoStart ==
+  /\ NCo > 0 /\ Live /\ \E i \in 1..NCo : cor.cos[i].st = "none"
+  /\ LET i == CHOOSE j \in 1..NCo : cor.cos[j].st = "none" /\ \A k \in 1..(j-1) : cor.cos[k].st # "none" IN
+     CoStep([op |-> "costart", co |-> i], <<>>,
+            [cos |-> [cor.cos EXCEPT ![i] = [st |-> "run", fr |-> <<>>]], chain |-> Append(cor.chain, i), saved |-> Append(cor.saved, frames)])
+
+(* the running coroutine yields: its resumer continues, on its own Go stack, with whatever context is active *)
+CoYield ==
+  /\ NCo > 0 /\ Live /\ cor.chain # <<>>
+  /\ LET i == cor.chain[Len(cor.chain)] IN
+     CoStep([op |-> "yield"], cor.saved[Len(cor.saved)],
+            [cos |-> [cor.cos EXCEPT ![i] = [st |-> "susp", fr |-> frames]], chain |-> ButLastS(cor.chain), saved |-> ButLastS(cor.saved)])
+
+CoResume(i) ==
+  /\ NCo > 0 /\ Live /\ cor.cos[i].st = "susp"
+  /\ CoStep([op |-> "resume", co |-> i], cor.cos[i].fr,
+            [cos |-> [cor.cos EXCEPT ![i] = [st |-> "run", fr |-> <<>>]], chain |-> Append(cor.chain, i), saved |-> Append(cor.saved, frames)])
+
+(* the body of the running coroutine returns (all its CallContext calls have ended) *)
+CoEnd ==
+  /\ NCo > 0 /\ Live /\ cor.chain # <<>> /\ frames = <<>>
+  /\ LET i == cor.chain[Len(cor.chain)] IN
+     CoStep([op |-> "coend"], cor.saved[Len(cor.saved)],
+            [cos |-> [cor.cos EXCEPT ![i] = [st |-> "dead", fr |-> <<>>]], chain |-> ButLastS(cor.chain), saved |-> ButLastS(cor.saved)])
+
 Next ==
+  \/ CoStart \/ CoYield \/ CoEnd \/ (\E i \in 1..NCo : CoResume(i))
   \/ \E d \in Defs : Push(d) \/ CallBegin(d)
   \/ Pop
   \/ \E n \in CpuAmt : RequireCPU(n)
